@@ -253,6 +253,8 @@ def run_grids(io, spec):
 LEGEND_WORDS = ["Coul-SR:SOL_ION-SOL_ION", "Coul-SR:SOL_ION-SOL", "Coul-SR", "Pot", "Potential", "LJ (SR)", "Coulomb (SR)", "Disper. corr.", "Pres. DC (bar)", "Coul. SR @ 1.2 nm", "Kinetic En.",
                 "s10 legend", "legend s1", "# of contacts", "E[kJ/mol]", "a,b", "Total Energy", "T-rest", "Box-X", " padded ",
                 "x" * 40, "s9", "Time",
+                # legends whose words are separated by more than one blank, or by a tab
+                "Pres.  DC (bar)", "Coul-SR:SOL   -SOL", "two\twords", "  two leading blanks",
                 # xmgrace escapes: font switches, a literal backslash (written as two), a legend ending in one
                 "Temp\\S-1\\N", "a\\\\b", "C:\\\\", "trailing\\", "\\xm\\f{} (nm)"]
 
@@ -305,7 +307,8 @@ def make_xvg(rng, nprng, path):
         else:
             lines.append(rng.choice([" ", "\t", "  "]).join(toks))
     with open(path, "w") as f:
-        f.write("\n".join(lines) + "\n")
+        # files copied out of editors or cut by head/tail end without a newline after the last data line
+        f.write("\n".join(lines) + ("\n" if rng.random() < 0.8 else ""))
     TABLES[os.path.abspath(path)] = {"columns": ["Time [ps]"] + legends, "values": truth}
     return legends, n_rows, n_hash, style
 
